@@ -395,7 +395,9 @@ def basis_function_ders_one(degree, knot_vector, span, knot, order):
     ders = [0.0 for _ in range(0, order + 1)]
 
     # Knot is outside of span range
-    if (knot < knot_vector[span]) or (knot >= knot_vector[span + degree + 1]):
+    # The last knot belongs to the last non-empty knot span (the other basis function routines evaluate it there)
+    at_end = knot == knot_vector[-1] and knot_vector[span + degree + 1] == knot_vector[-1]
+    if (knot < knot_vector[span]) or (knot >= knot_vector[span + degree + 1] and not at_end):
         for k in range(0, order + 1):
             ders[k] = 0.0
 
@@ -405,7 +407,8 @@ def basis_function_ders_one(degree, knot_vector, span, knot, order):
 
     # Initializing the zeroth degree basis functions
     for j in range(0, degree + 1):
-        if knot_vector[span + j] <= knot < knot_vector[span + j + 1]:
+        if knot_vector[span + j] <= knot < knot_vector[span + j + 1] or \
+                (at_end and knot_vector[span + j] < knot_vector[span + j + 1] == knot):
             N[j][0] = 1.0
 
     # Computing all basis functions values for all degrees inside the span
